@@ -386,6 +386,8 @@ fn sem_operand(s: &mut Src, depth: usize) -> String {
                 "{ a: string; b?: number }", "{ a: 1 } | { a: 2; b: string }", "Record<string, number>", "Record<\"a\" | \"b\", number>",
                 "{ [k: string]: boolean }", "T0", "T1", "StringFormat<\"lower\">", "`a${string}`", "Uint8Array", "Map<string, number>", "Set<string>",
                 "Array<{ a: T0 }>", "readonly [T0, T1]",
+                // recursive named types of every container kind (declared by sem_file), incl. ones without finite values
+                "R0", "R1", "R2", "R4", "R5", "R6", "R7", "R0 | null", "R1 | string", "[R2, R1]",
             ])
             .to_string();
     }
@@ -410,6 +412,7 @@ fn sem_file(s: &mut Src) -> String {
     out.push_str(&format!("type T0 = {};\n", sem_operand(s, 1)));
     out.push_str(&format!("type T1 = {};\n", sem_operand(s, 1)));
     out.push_str("type K0 = \"a\" | \"b\";\ntype K1 = K0;\n");
+    out.push_str("type R0 = [string, R0];\ntype R1 = { next: R1 | null; v: string };\ntype R2 = [R3];\ntype R3 = [R2];\ntype R4 = R4[];\ntype R5 = { [k: string]: R5 };\ntype R6 = Map<string, R6>;\ntype R7 = { a: R7 } | { b: R0 };\n");
     let n = s.range(1, 3);
     let mut ps = vec![];
     for i in 0..n {
@@ -505,7 +508,9 @@ pub fn has_unguarded_alias_cycle(p: &Project) -> bool {
                             // `name:` is a parameter/member name only right after `(`, `,` or `...`; after `?` it is the
                             // true branch of a conditional type
                             let is_label = next == ":" && matches!(prev.as_str(), "(" | "," | "..." | "{" | ";" | "readonly");
-                            if !utility && !is_label && next != "<" && next != "." && next != "=>" {
+                            // `T[]` is the array constructor (guarded); `T["k"]` is an indexed access (transparent)
+                            let is_array = next == "[" && toks.get(j + 2).map(|x| x == "]").unwrap_or(false);
+                            if !utility && !is_label && !is_array && next != "<" && next != "." && next != "=>" {
                                 edges.entry(name.clone()).or_default().insert(t.clone());
                             }
                         }
